@@ -57,6 +57,9 @@ type obj =
   | Rsn of rsnarrow
   | Rsw of rswide
   | Da of bool * darray
+  | Hq of n * n * hqwt            (* width, block size *)
+  | Wt of n * bool * bwt          (* width, compressed *)
+  | Pending of string * string * n list   (* Huffman tree waiting for its code table: kind, elem, data *)
 
 let width_of = function
   | "u8" | "i8" -> 8 | "u16" | "i16" -> 16 | "u32" | "i32" -> 32
@@ -90,6 +93,18 @@ let build kind elem path (rest : string list) : obj =
     (match path with
      | "default" -> Qwt (w, b, qwt_default)
      | _ -> of_outcome (fun t -> Qwt (w, b, t)) (qwt_new w b (List.map n_of_string (vals ()))))
+  | "hqwt256" | "hqwt512" | "hqwt256pfs" | "hqwt512pfs" | "hwt" ->
+    (match path with
+     | "default" ->
+       if kind = "hwt" then of_outcome (fun t -> Wt (n_of_int (width_of elem), true, t)) (wt_build (n_of_int (width_of elem)) true [] [])
+       else of_outcome (fun t -> Hq (n_of_int (width_of elem), n_of_int (if kind = "hqwt256" || kind = "hqwt256pfs" then 256 else 512), t))
+           (hq_build (n_of_int (if kind = "hqwt256" || kind = "hqwt256pfs" then 256 else 512)) [] [])
+     | _ -> Pending (kind, elem, List.map n_of_string (vals ())))
+  | "wt" ->
+    let w = n_of_int (width_of elem) in
+    (match path with
+     | "default" -> of_outcome (fun t -> Wt (w, false, t)) (wt_build w false [] [])
+     | _ -> of_outcome (fun t -> Wt (w, false, t)) (wt_build w false (List.map n_of_string (vals ())) []))
   | "bv" | "bvm" | "rsn" | "rsw" | "darray0" | "darray1" ->
     let bits_of_string str = if str = "-" then [] else List.init (String.length str) (fun i -> str.[i] = '1') in
     let is_pos = String.length path >= 3 && String.sub path 0 3 = "pos" in
@@ -110,6 +125,55 @@ let build kind elem path (rest : string list) : obj =
   | _ -> Nothing
 
 let join = String.concat ","
+
+(* "V<n>;sym:content:len,..." *)
+let parse_codes (spec : string) : (int * (int * n * n) list) option =
+  if String.length spec < 2 || spec.[0] <> 'V' then None
+  else
+    match String.index_opt spec ';' with
+    | None -> None
+    | Some k ->
+      let n = int_of_string (String.sub spec 1 (k - 1)) in
+      let rest = String.sub spec (k + 1) (String.length spec - k - 1) in
+      let ents = if rest = "" then [] else
+          List.map (fun e -> match String.split_on_char ':' e with
+              | [a; b; c] -> (int_of_string a, n_of_string b, n_of_string c)
+              | _ -> failwith "codes") (String.split_on_char ',' rest) in
+      Some (n, ents)
+let codes_string (tab : pcode list) : string =
+  let ents = List.filter (fun (_, c) -> c.pc_len <> N0) (List.mapi (fun i c -> (i, c)) tab) in
+  "V" ^ string_of_int (List.length tab) ^ ";" ^
+  String.concat "," (List.map (fun (i, c) -> string_of_int i ^ ":" ^ sn c.pc_content ^ ":" ^ sn c.pc_len) ents)
+let n_cmp (a : n) (b : n) : int = if N.ltb a b then -1 else if N.eqb a b then 0 else 1
+
+let resolve_pending (spec : string) : string =
+  match !cur with
+  | Pending (kind, elem, data) ->
+    (match parse_codes spec with
+     | None -> cur := Nothing; "-"
+     | Some (n, ents) ->
+       let frag = if kind = "hwt" then n_of_int 1 else n_of_int 2 in
+       let table = List.init n (fun i ->
+           match List.find_opt (fun (s, _, _) -> s = i) ents with
+           | Some (_, c, l) -> { pc_content = c; pc_len = l } | None -> { pc_content = N0; pc_len = N0 }) in
+       (* the order in which the builder assigned the codes: by length, then by decreasing
+          scratch value c[j] (= the code with its fragments reversed) *)
+       let revd = List.map (fun (s, c, l) -> (s, l, rev_frags frag c l N0 (nat_of_int 40))) ents in
+       let sorted = List.stable_sort (fun (_, l1, r1) (_, l2, r2) ->
+           let c = n_cmp l1 l2 in if c <> 0 then c else n_cmp r2 r1) revd in
+       let f = List.map (fun (s, l, _) -> (n_of_int s, l)) sorted in
+       let crafted = if n = 0 then Val [] else (if kind = "hwt" then craft2 else craft4) f (n_of_int (n - 1)) in
+       let w = n_of_int (width_of elem) in
+       (match crafted with
+        | Fault e -> cur := Faulted e; fault_s e
+        | Val ctab ->
+          let b = n_of_int (if kind = "hqwt256" || kind = "hqwt256pfs" then 256 else 512) in
+          (if kind = "hwt" then
+             (match wt_build w true data table with Val t -> cur := Wt (w, true, t) | Fault e -> cur := Faulted e)
+           else
+             (match hq_build b data table with Val t -> cur := Hq (w, b, t) | Fault e -> cur := Faulted e));
+          codes_string ctab))
+  | _ -> "-"
 
 let query (op : string) (a : n list) : string =
   let a0 () = List.nth a 0 and a1 () = List.nth a 1 in
@@ -231,6 +295,40 @@ let query (op : string) (a : n list) : string =
      | "zeroswp" -> collect false (pi_with_pos false b (a0 ()))
      | "bits" -> String.concat "" (List.map sb01 (bv_abs b))
      | _ -> "-")
+  | Pending _ -> "-"
+  | Hq (w, b, t) ->
+    (match op with
+     | "len" -> "V" ^ sn (hq_len t)
+     | "isempty" -> tf (hq_len t = N0)
+     | "nlevels" -> "V" ^ sn t.h_n_levels
+     | "get" -> so sn (hq_get w b t (a0 ()))
+     | "uget" -> sv sn (hq_get_unchecked w b t (a0 ()))
+     | "rank" -> so sn (hq_rank b t (a0 ()) (a1 ()))
+     | "urank" -> sv sn (hq_rank_unchecked b t (a0 ()) (a1 ()))
+     | "rankp" -> so sn (hq_rank_prefetch b t (a0 ()) (a1 ()))
+     | "urankp" -> sv sn (hq_rank_prefetch_unchecked b t (a0 ()) (a1 ()))
+     | "select" -> so sn (hq_select b t (a0 ()) (a1 ()))
+     | "uselect" -> sv sn (hq_select_unchecked b t (a0 ()) (a1 ()))
+     | "getall" -> join (List.map (fun i -> so sn (hq_get w b t (n_of_int i))) (range 0 (nlen_int (hq_len t) + 1)))
+     | "rankall" -> join (List.map (fun i -> so sn (hq_rank b t (a0 ()) (n_of_int i))) (range 0 (nlen_int (hq_len t) + 1)))
+     | "rankpall" -> join (List.map (fun i -> so sn (hq_rank_prefetch b t (a0 ()) (n_of_int i))) (range 0 (nlen_int (hq_len t) + 1)))
+     | "selectall" -> join (List.map (fun k -> so sn (hq_select b t (a0 ()) (n_of_int k))) (range 0 (nlen_int (a1 ()))))
+     | _ -> "-")
+  | Wt (w, c, t) ->
+    (match op with
+     | "len" -> "V" ^ sn t.w_n
+     | "isempty" -> tf (t.w_n = N0)
+     | "nlevels" -> "V" ^ sn t.w_n_levels
+     | "get" -> so sn (wt_get w c t (a0 ()))
+     | "uget" -> sv sn (wt_get_unchecked w c t (a0 ()))
+     | "rank" -> so sn (wt_rank w c t (a0 ()) (a1 ()))
+     | "urank" -> sv sn (wt_rank_unchecked w c t (a0 ()) (a1 ()))
+     | "select" -> so sn (wt_select w c t (a0 ()) (a1 ()))
+     | "uselect" -> sv sn (wt_select_unchecked w c t (a0 ()) (a1 ()))
+     | "getall" -> join (List.map (fun i -> so sn (wt_get w c t (n_of_int i))) (range 0 (nlen_int t.w_n + 1)))
+     | "rankall" -> join (List.map (fun i -> so sn (wt_rank w c t (a0 ()) (n_of_int i))) (range 0 (nlen_int t.w_n + 1)))
+     | "selectall" -> join (List.map (fun k -> so sn (wt_select w c t (a0 ()) (n_of_int k))) (range 0 (nlen_int (a1 ()))))
+     | _ -> "-")
   | Qwt (w, b, t) ->
     (match op with
      | "len" -> "V" ^ sn (qwt_len t)
@@ -290,6 +388,8 @@ let exec (toks : string list) : string =
   | "NEW" :: kind :: elem :: path :: rest ->
     cur := build kind elem path rest;
     (match !cur with Nothing -> "-" | Faulted e -> fault_s e | _ -> "OK")
+  | "Q" :: "codes" :: spec :: _ -> resolve_pending spec
+  | "Q" :: "codes" :: [] -> (match !cur with Pending _ -> cur := Nothing; "-" | _ -> "-")
   | "Q" :: op :: args -> query op (List.map n_of_string args)
   | "OP" :: op :: args ->
     (match !cur with
